@@ -913,6 +913,20 @@ func (fr *frame) sliceOp(ins *ssa.Slice) value {
 			return fr.sliceStrSym(xs, loT, hiT)
 		}
 	}
+	if xsl, isSl := x.(slice); isSl && xsl.obj != nil {
+		if _, lazy := (*cellOf(xsl.obj, xsl.path)).(*lazyArr); lazy {
+			symB := false
+			for _, b := range []ssa.Value{ins.Low, ins.High, ins.Max} {
+				if b != nil && !toIndex(fr.get(b), b.Type()).isConst() {
+					symB = true
+				}
+			}
+			if symB {
+				// enumerating the bounds would fork once per window position
+				panic(unsupported("sub-slice with symbolic bounds of a lazily defined array"))
+			}
+		}
+	}
 	var lo, hi, max int64 = 0, -1, -1
 	if ins.Low != nil {
 		lo = fr.m.concInt(toIndex(fr.get(ins.Low), ins.Low.Type()), fr)
